@@ -43,13 +43,15 @@ def _key(place):
 
 
 class Eval:
-    def __init__(self, F, f, assume=None, watch=None, params=None, depth=0):
+    def __init__(self, F, f, assume=None, watch=None, params=None, depth=0, call_hook=None):
         self.F = F
         self.f = f
         self.assume = {k.replace('*', '').replace('(', '').replace(')', ''): v for k, v in (assume or {}).items()}
         self.watch = watch or (lambda text: False)
         self.params = params or {}
         self.depth = depth
+        self.call_hook = call_hook   # (Eval, Fn, call terminator dict, block) -> value tree or None
+        self.ret_trees = {}          # return block -> value tree of local 0 (as of the last visit)
         self.assigned = {}       # (block, index, place text) -> frozenset values | None  (as of the last visit)
         self.ret = None          # joined state subtree of local 0 at the returns
         self.reached = set()
@@ -199,13 +201,27 @@ class Eval:
         callee = t.get('callee') or ''
         tree = {}
         args = t['args']
-        if callee.endswith('Try::branch') and args:
+        hooked = self.call_hook(self, self.f, t, b) if self.call_hook else None
+        if hooked is not None:
+            tree = dict(hooked)
+        elif callee.endswith('Try::branch') and args:
             src = self.operand_tree(st, args[0])
             if () in src:
                 tree[()] = src[()]          # Ok=0 -> Continue=0, Err=1 -> Break=1
             for rest, v in src.items():
                 if rest[:1] == ('@Ok',) or rest[:1] == ('@Some',):
                     tree[('@Continue',) + rest[1:]] = v
+                # the residual keeps the whole failed value: Break(Err(e)) / Break(None)
+                if rest[:1] in (('@Err',), ('@None',)) or rest == ():
+                    tree[('@Break', '0') + rest] = v
+        elif callee.endswith('FromResidual::from_residual') and args:
+            # Err(e) -> Err(From::from(e)): the variant of an error that converts into itself is kept
+            tree = dict(self.operand_tree(st, args[0]))
+        elif callee.endswith(('Option::<T>::is_some', 'Option::<T>::is_none', 'Result::<T, E>::is_ok', 'Result::<T, E>::is_err')) and args:
+            src = self.operand_tree(st, args[0])
+            if () in src:
+                one = 1 if callee.endswith(('is_some', 'is_err')) else 0
+                tree[()] = frozenset(int(x == one) for x in src[()])
         elif callee.endswith(('Result::<T, E>::map_err', 'Result::<T, E>::inspect_err', 'Result::<T, E>::or_else')) and args:
             src = self.operand_tree(st, args[0])
             if () in src:
@@ -227,6 +243,9 @@ class Eval:
             for rest, v in src.items():
                 if rest[:1] == ('@Some',):
                     tree[('@Ok',) + rest[1:]] = v
+            if callee.endswith('ok_or') and len(args) > 1:
+                for rest, v in self.operand_tree(st, args[1]).items():
+                    tree[('@Err', '0') + rest] = v
         elif callee.endswith(('Result::<T, E>::unwrap', 'Result::<T, E>::expect', 'Option::<T>::unwrap', 'Option::<T>::expect')) and args:
             src = self.operand_tree(st, args[0])
             for rest, v in src.items():
@@ -249,7 +268,7 @@ class Eval:
                 mk = (g.path, tuple(sorted((l, tuple(sorted(tr.items()))) for l, tr in params.items())))
                 if mk not in _MEMO:
                     _MEMO[mk] = None  # recursion guard
-                    sub = Eval(self.F, g, assume=None, params=params, depth=self.depth + 1)
+                    sub = Eval(self.F, g, assume=None, params=params, depth=self.depth + 1, call_hook=self.call_hook)
                     sub.run()
                     _MEMO[mk] = dict(sub.ret) if sub.ret else None
                 if _MEMO[mk]:
@@ -295,6 +314,7 @@ class Eval:
                     outs.append((t['t'], st))
             elif k == 'return':
                 rets.append(self.subtree(st, (0, ())))
+                self.ret_trees[b] = self.subtree(st, (0, ()))
             elif k == 'switch':
                 o = t['discr']
                 vals = self.operand_val(st, o)
